@@ -3,7 +3,6 @@
 //! history, the model is a freshly built engine (own factory) replaying the net tokens.
 
 use crate::engine::{factory, is_limit_error, matcher, short_err, GrammarSpec};
-use crate::gen::any_grammar;
 use crate::runner::{Ctx, Prop, Tier, R};
 use crate::util::{esc, frac, Fnv};
 use crate::vocab::{Vocab, VocabSpec};
@@ -79,8 +78,10 @@ fn collision_grammar() -> BoxedStrategy<GrammarSpec> {
     .boxed()
 }
 
-pub fn case_strategy(tier: Tier, rollback_weight: u32, query_weight: u32) -> BoxedStrategy<Case> {
-    let g = prop_oneof![3 => any_grammar(), 1 => collision_grammar()];
+pub fn case_strategy(tier: Tier, rollback_weight: u32, query_weight: u32, with_stop_lexemes: bool) -> BoxedStrategy<Case> {
+    // C11 quantifies over every grammar; C12 over those that support rollback (no stop= / max_tokens=)
+    let any = if with_stop_lexemes { crate::gen::any_grammar_ext() } else { crate::gen::any_grammar_core_ext() };
+    let g = prop_oneof![3 => any, 1 => collision_grammar()];
     g.prop_flat_map(move |g| {
         (
             Just(g.clone()),
@@ -152,6 +153,12 @@ pub fn run_history(prefix: &'static str, case: &Case, ctx: &mut Ctx) -> R {
         return Ok(());
     }
     let key = |k: &str| format!("{}/{}", prefix, k);
+    // rollback and reset are documented as unsupported with stop= / max_tokens= lexemes: such
+    // histories consist of commits and read-only queries only
+    let can_rollback = crate::gen::supports_rollback(&case.g);
+    if !can_rollback {
+        ctx.class("grammar_with_stop_or_max_tokens_lexeme");
+    }
     let gtxt = crate::util::truncate_str(&case.g.text(), 400);
     let mut tokens: Vec<u32> = vec![];
     let mut had_rollback = false;
@@ -214,7 +221,7 @@ pub fn run_history(prefix: &'static str, case: &Case, ctx: &mut Ctx) -> R {
                 continue;
             }
             Op::Rollback(fr) => {
-                if tokens.is_empty() {
+                if tokens.is_empty() || !can_rollback {
                     continue;
                 }
                 let k = 1 + frac(*fr, tokens.len());
@@ -232,6 +239,9 @@ pub fn run_history(prefix: &'static str, case: &Case, ctx: &mut Ctx) -> R {
                 continue;
             }
             Op::Reset => {
+                if !can_rollback {
+                    continue;
+                }
                 if let Err(e) = m.reset() {
                     return ctx.fail(&key("reset-failed"), || tag!(&short_err(&e.to_string())));
                 }
@@ -312,7 +322,13 @@ pub fn run_history(prefix: &'static str, case: &Case, ctx: &mut Ctx) -> R {
                             return Ok(());
                         }
                     }
-                    return ctx.fail(&key("query-failed"), || tag!(&format!("query {:?} put the engine into error state: {}", q, short_err(&e))));
+                    // known findings: internal panics of hidden stop= lexemes (forced stop byte; stop text that
+                    // continues into the next lexeme), see engine::hidden_stop_panic
+                    let k = match crate::engine::hidden_stop_panic(&e) {
+                        Some(k) if !can_rollback => k,
+                        _ => "query-failed",
+                    };
+                    return ctx.fail(&key(k), || tag!(&format!("query {:?} put the engine into error state: {}", q, short_err(&e))));
                 }
                 continue;
             }
@@ -422,7 +438,7 @@ impl Prop for C11 {
         tier.pick(600, 6000)
     }
     fn strategy(&self, tier: Tier) -> BoxedStrategy<Case> {
-        case_strategy(tier, 2, 8)
+        case_strategy(tier, 2, 8, true)
     }
     fn run(&self, case: &Case, ctx: &mut Ctx) -> R {
         run_history("C11", case, ctx)
@@ -446,7 +462,7 @@ impl Prop for C12 {
         tier.pick(600, 6000)
     }
     fn strategy(&self, tier: Tier) -> BoxedStrategy<Case> {
-        case_strategy(tier, 6, 2)
+        case_strategy(tier, 6, 2, false)
     }
     fn run(&self, case: &Case, ctx: &mut Ctx) -> R {
         run_history("C12", case, ctx)
